@@ -66,6 +66,45 @@ def judge(rep, recs, prop='C02'):
     rep.extra['family_orientation_mode_combinations'] = len(seen)
 
 
+def scale_cases(rep, rng, totals):
+    """Site assignment is frame-local: a long trajectory made by repeating the frames of a small, TLC-validated case must get the
+    repeated states.  Sizes are chosen above typical block sizes (2^18, 2^19, 1e6 points) and odd."""
+    from gemdat import Trajectory
+    for total in totals:
+        for _ in range(20):
+            rec, traj, structure, kw = ad.make_case(rng, 900000 + total, 'tric', 'rot', 'float')
+            A = len(rec['pos'][0])
+            if A % 2 == 1:
+                break
+        try:
+            rec, tr = ad.run_case(rec, traj, structure, kw)
+        except ValueError:
+            continue
+        meta = rec.pop('meta')
+        (v, _), = core.validate_traces('TraceAssign', [rec], timeout=600)
+        rep.add_trace_stats()
+        rep.evaluations += 1
+        if v != 'ok':
+            rep.violation({'kind': 'leg-B', 'clause': v, 'meta': meta, 'record': rec})
+            continue
+        small_states, small_inner = np.asarray(tr.states), np.asarray(tr.inner_states)
+        T0 = len(small_states)
+        Tbig = total // A + (1 - (total // A) % 2)               # odd number of frames, A odd -> odd number of points
+        reps = -(-Tbig // T0)
+        coords = np.tile(np.asarray(traj.positions), (reps, 1, 1))[:Tbig]
+        big = Trajectory(species=traj.species, coords=coords, lattice=traj.get_lattice(), time_step=traj.time_step, metadata=dict(traj.metadata))
+        trb = big.transitions_between_sites(structure, 'Li', **kw)
+        exp_s = np.tile(small_states, (reps, 1))[:Tbig]
+        exp_i = np.tile(small_inner, (reps, 1))[:Tbig]
+        rep.evaluations += 1
+        rep.nontrivial += 1
+        if not (np.array_equal(np.asarray(trb.states), exp_s) and np.array_equal(np.asarray(trb.inner_states), exp_i)):
+            wrong = int((np.asarray(trb.states) != exp_s).sum())
+            rep.violation({'kind': 'scale', 'clause': 'long-trajectory-states-differ-from-frame-by-frame-assignment', 'points': int(Tbig * A),
+                           'frames': int(Tbig), 'atoms': A, 'wrong_entries': wrong, 'meta': meta})
+        rep.extra.setdefault('scale_cases', []).append({'points': int(Tbig * A), 'frames': int(Tbig), 'atoms': A})
+
+
 def run(rep):
     quick = rep.tier == 'quick'
     core.gemdat_src_first()
@@ -75,7 +114,8 @@ def run(rep):
                 'lower-triangular, pymatgen from_parameters, random rotation) x radius modes (float, per-label dict, dict with '
                 'never-visited group members, automatic), inner fractions {1,.75,.5,.25}, raw coordinates shifted by lattice vectors; '
                 '.states/.inner_states judged by TLC with exact integer minimum-image distances from the metric tensor. '
-                'Non-trivial = case with at least one atom at a site and one not (or outer-only).')
+                'Scale: a TLC-validated small case repeated to more than 2^18 (thorough: 2^19, 1e6) points with an odd point count must give the '
+                'repeated states (assignment is frame-local). Non-trivial = case with at least one atom at a site and one not (or outer-only).')
     rep.assumptions = ['r^2 N^2 is kept >= 0.05 (explicit radii: exactly 0.5) away from integers, so every atom is >= 1e-4 relative from a sphere surface',
                        'explicit radii satisfy 2r < smallest site separation (unique assignment); radius < 0.45 x smallest perpendicular cell width',
                        'automatic radius: expected r computed from the public TrajectoryMetrics.vibration_amplitude() and the exact site separation']
@@ -85,3 +125,4 @@ def run(rep):
     rng = np.random.default_rng(rep.seed + 2)
     recs = collect(rep, rng, 162 if quick else 1620, 24 if quick else 300)
     judge(rep, recs)
+    scale_cases(rep, rng, [2 ** 18 + 19] if quick else [2 ** 18 + 19, 2 ** 19 + 77, 10 ** 6 + 1])
